@@ -117,6 +117,20 @@ func (t *tr) expr(e ast.Expr) string {
 		}
 	}
 	// [group Pots] end
+	// [group Hop] begin
+	if t.s.group == "Hop" {
+		if v, ok := t.hopExpr(e); ok {
+			return v
+		}
+	}
+	// [group Hop] end
+	// [group SM2] begin
+	if t.s.group == "SM2" {
+		if v, ok := t.sm2Expr(e); ok {
+			return v
+		}
+	}
+	// [group SM2] end
 	switch x := e.(type) {
 	case *ast.Ident:
 		if x.Name == "true" || x.Name == "false" {
@@ -297,6 +311,13 @@ func (t *tr) block(stmts []ast.Stmt, k string, own, outer scope) string {
 		}
 		return o
 	}
+	// [group Hop] begin
+	if t.s.group == "Hop" {
+		if out, ok := t.hopStmt(s, rest, k, own, outer, nested); ok {
+			return out
+		}
+	}
+	// [group Hop] end
 	// [group Pots] begin
 	if t.s.group == "Pots" {
 		if out, ok := t.potsStmt(s, rest, k, own, outer, nested); ok {
@@ -304,6 +325,13 @@ func (t *tr) block(stmts []ast.Stmt, k string, own, outer scope) string {
 		}
 	}
 	// [group Pots] end
+	// [group SM2] begin
+	if t.s.group == "SM2" {
+		if out, ok := t.sm2Stmt(s, rest, k, own, outer, nested); ok {
+			return out
+		}
+	}
+	// [group SM2] end
 	switch x := s.(type) {
 	case *ast.ReturnStmt:
 		if len(x.Results) >= 1 {
@@ -1313,7 +1341,11 @@ func main() {
 	// [group Pots] begin
 	writeGroup(root, out, "Pots")
 	// [group Pots] end
-	reportIgnored(out) // [newfields]
+	// [group SM2] begin
+	writeGroup(root, out, "SM2")
+	// [group SM2] end
+	writeGroup(root, out, "Hop") // [group Hop]
+	reportIgnored(out)           // [newfields]
 }
 
 func writeGroup(root, out, group string) {
@@ -1323,6 +1355,11 @@ func writeGroup(root, out, group string) {
 	if group == "Reg" {
 		b.WriteString(regPreamble)
 	}
+	// [group SM2] begin
+	if group == "SM2" {
+		b.WriteString(sm2Preamble)
+	}
+	// [group SM2] end
 	for _, s := range specs {
 		if s.group != group {
 			continue
@@ -1340,6 +1377,11 @@ func writeGroup(root, out, group string) {
 			stmts = t.potsDescend(stmts)
 		}
 		// [group Pots] end
+		// [group SM2] begin
+		if s.group == "SM2" {
+			stmts = t.sm2Select(stmts)
+		}
+		// [group SM2] end
 		if s.loop != "" {
 			stmts = t.loopBody(stmts)
 		}
